@@ -392,12 +392,12 @@ def action_list(rnd, size):
 def run(ctx: core.Ctx):
     # ---- T1
     t1_ok = True
-    try:
-        text01, facts01 = c01_facts.generate(core.REPO)
+    try:   # only the chain configuration (Model.Chain.cfg) C11's theorems use; same definition names as Gen.C01Facts
+        text01, facts01 = c11_facts.chain_cfg(core.REPO)
         ctx.gen("C01Facts", text01, facts01)
     except Exception as ex:
-        ctx.broken("T1:c01_facts", f"{type(ex).__name__}: {ex}")
-        ctx.gen("C01Facts", open(core.VERIF + "/translate/c01_facts_pinned.v").read())
+        ctx.broken("T1:chain_cfg(c01_facts readers)", f"{type(ex).__name__}: {ex}")
+        ctx.gen("C01Facts", open(core.VERIF + "/translate/c11_cfg_pinned.v").read())
         t1_ok = False
     try:
         text, facts = c11_facts.generate(core.REPO)
